@@ -16,7 +16,7 @@ checks_for() {
     reintroduce-F13-*) echo C12 ;; reintroduce-F1[4-9]*) echo C06 ;; reintroduce-F20-*) echo C11 ;;
     reintroduce-F21-*|reintroduce-F22-*) echo C15 ;; reintroduce-F23) echo C16 ;;
     reintroduce-F2[4-9]|reintroduce-F30) echo C17 ;;
-    reintroduce-F31) echo C08 ;; reintroduce-F35) echo C20 ;; reintroduce-F36) echo C11 ;; reintroduce-F39) echo C06 ;; reintroduce-F40) echo C08 ;; reintroduce-F33|reintroduce-F34) echo C04 ;;
+    reintroduce-F31) echo C08 ;; reintroduce-F35) echo C20 ;; reintroduce-F36) echo C11 ;; reintroduce-F39) echo C06 ;; reintroduce-F40) echo C08 ;; reintroduce-F41) echo C20 ;; reintroduce-F33|reintroduce-F34) echo C04 ;;
     *) echo "" ;;
   esac
 }
